@@ -472,6 +472,8 @@ func (w *World) Exec(st *Step) (res StepResult) {
 			w.gen.be.Cache.Snapshot.Purge()
 			w.fault("snapshot_cache_purged")
 		}
+	case "rebuild":
+		// the oracle that owns this step does the work (see snapshotMonitor)
 	case "admin":
 		return w.execAdmin(st)
 	default:
